@@ -228,8 +228,15 @@ def _r3(run, ev):
     rg = sym.make_evaluator(project, COLL, []).run(g.node)
     s = show(rg.returns[0][1]) if rg.returns else ""
     if "_scan_hdus" in ast.unparse(g.node) and len(rg.returns) == 1:
-        comp = [n for n in ast.walk(g.node) if isinstance(n, (ast.ListComp, ast.GeneratorExp))]
-        ok = bool(comp) and ast.unparse(comp[0].elt).replace(" ", "") in ("(t[0],t[1])",) and "self._scan_hdus()" in ast.unparse(comp[0].generators[0].iter)
+        # [(item[0], item[1]) for item in self._scan_hdus()] in any spelling: a comprehension over the scan whose element is the
+        # pair of the first two components of the scanned item
+        scan_t = ("call", ("attr", ("sym", "self"), "_scan_hdus"), (), ())
+        ret = rg.returns[0][1]
+        if ret[0] == "call" and show(ret[1]) in ("list", "tuple") and len(ret[2]) == 1:
+            ret = ret[2][0]
+        el_ = ("elem", scan_t)
+        ok = ret[0] == "op" and ret[1] == "comp" and len(ret[2]) == 4 and ret[2][2] == scan_t and ret[2][3] == sym.TRUE \
+            and ret[2][1] == ("tuple", (("item", el_, 0), ("item", el_, 1)))
         if ok:
             run.holds("C20.R3", g, None, "export_simple = [(path, hdu_index) for each scanned item]")
         else:
